@@ -234,7 +234,7 @@ type endpoint struct {
 	errs      []string
 	errCh     chan struct{} // closed on the first onError
 	errOnce   sync.Once
-	mark      map[byte]int // epilogue: len(got[ch]) when it began
+	mark      map[byte]int  // epilogue: len(got[ch]) when it began
 	afterOver chan struct{} // closed when the message sent behind the oversized one arrives
 	afterOnce sync.Once
 	inEpi     bool
@@ -927,7 +927,7 @@ func mconnProperty(t *rapid.T) {
 	}
 	nontrivial := res.multiCh >= 2
 	ev.Case(nontrivial, text, classes...)
-	if nontrivial && ev.WantSample("mconn") {
+	if nontrivial && len(text) < 900 && ev.WantSample("mconn") {
 		ev.Sample("mconn", text)
 	}
 	settle(t, p, res, func() mcResult { return runMConn(p, stallLimit()) })
